@@ -136,7 +136,7 @@ type layerShare struct {
 var layerShares = []layerShare{
 	{"C05", []string{"C01", "C03", "C04", "C06", "C07", "C08", "C09", "C10", "C15", "C16", "C18", "C19", "C12", "C02", "C11"},
 		"L3, model to files: the property is observed in the files HAProxy loads; a file that is not rewritten when its part of the model changed keeps the old behaviour", nil},
-	{"C01", []string{"C03", "C04", "C06", "C07", "C08", "C09", "C15", "C17", "C16", "C18", "C10", "C11"},
+	{"C01", []string{"C03", "C04", "C06", "C07", "C08", "C09", "C15", "C17", "C16", "C18", "C10", "C11", "C05", "C02", "C12", "C19"},
 		"L2, partial sync: the property is quantified over histories (or the change was made through an incremental reconciliation); what a partial sync does not re-parse keeps the old behaviour",
 		map[string]bool{".acquire-tracked": true}},
 	{"C14", []string{"C01", "C08", "C15", "C17", "C03", "C13"},
